@@ -42,7 +42,7 @@ def norm(resps):
 def run(ctx):
     rng = ctx.rng
     modes = drv.QUICK_MODES if ctx.quick else drv.ALL_MODES
-    n = 360 if ctx.quick else 8000
+    n = 1500 if ctx.quick else 12000
     ctx.rule = ("case = (mode, abandonment point, size regime incl. both sides of the 1 MiB mmap threshold, "
                 "keyed/by-address, declared size?); abandonment points: right after open, after k chunks, write in "
                 "flight (future polled once, then dropped), after flush, after close()/shutdown(), commit rejected "
